@@ -70,6 +70,11 @@ func (t *TypedAddressAmountTuple) UnmarshalJSON(data []byte) error {
 	}
 
 	t.Type = tRaw.Type
+	// A missing "type" key leaves the zero value; an unknown key of the right
+	// size would otherwise make up for it in the length check below.
+	if t.Type <= PTickerInvalid || PTickerMax <= t.Type {
+		return fmt.Errorf("%T.Type: invalid token type", t)
+	}
 
 	// The last 2 quotes are added back because they are stripped when the PType is unmarshalled
 	expectedJSONLen := len(`{"address":,"amount":,"type":""}`) +
